@@ -65,6 +65,10 @@ pub struct Decl {
     pub body: Ty,
     pub exported: bool,
     pub docs: Vec<String>,
+    /// byte range of the declaration in the parsed source, from `export`/`type` to the closing `;`
+    pub span: (usize, usize),
+    /// byte offset where the first attached leading block comment starts
+    pub doc_start: Option<usize>,
 }
 
 #[derive(Clone, Debug, PartialEq)]
